@@ -71,7 +71,7 @@ region — for EVERY value of the Go struct: `version:head+1-tail definition` wh
 `gts.Segment`, `version definition` otherwise -/
 theorem genBankFieldsString_eq (gbf : GenBankFields) :
     genBankFieldsString itoaBytes gbf = fastaDescOfGenBank gbf.Version gbf.Definition gbf.Region := by
-  unfold genBankFieldsString fastaDescOfGenBank unpack
+  unfold genBankFieldsString fastaDescOfGenBank gtsUnpack
   cases h : gbf.Region with
   | none => simp [wsLit, List.append_assoc]
   | some seg =>
